@@ -32,6 +32,7 @@ def gen(rng, tier, i):
         chaos["capacity"] = 1 << 20
     sc.net["chaos"] = chaos
     sc.net["spawn_yield"] = rng.choice([0, 300, 700])
+    sc.net["lock_yield"] = rng.choice([0, 100, 500])   # seeded scheduling points at the asynchronous locks
     sc.cfg["metrics"]["historySize"] = 2000
     n = rng.randint(1, 5)
     algo = rng.choice(["rr", "rr", "random", "hash", "hash", "default"])
